@@ -87,6 +87,16 @@ func interpretRef(s Store, name string, excludeTag bool) (ref string, sum []byte
 		}
 		return sl[i] < sl[j]
 	})
+	// an exact name wins over a name that merely ends with it: "main" is heads/main, not heads/a/main
+	for _, ref := range sl {
+		if ref == name || ref == "heads/"+name || ref == "tags/"+name || ref == "remotes/"+name {
+			sum, err := GetRef(s, ref)
+			if err != nil {
+				return name, nil, err
+			}
+			return ref, sum, nil
+		}
+	}
 	for _, ref := range sl {
 		if ref == name || strings.HasSuffix(ref, "/"+name) {
 			sum, err := GetRef(s, ref)
